@@ -245,11 +245,16 @@ def gen_program(rng, malformed=False, cfg=None):
     cfg = cfg or progs.GenConfig(n_cmds=(4, 34), p_list=0.04, p_apply=0.05, p_flatten=0.03, p_gdur=0.01,
                                  p_setreg=0.05, p_new=0.14, p_sub=0.13, p_copy=0.02, final_list=False)
     base = progs.gen_program(rng, cfg)
+    # a third of the programs use the qubit indices 1, 12, 11 (and 2 / 0): pairs whose decimal digits run together to the same
+    # string — (1, 12) and (11, 2) — (seeded change C08-m8: exported instructions cached under a tag built without a separator)
+    qmap = rng.choice([None, None, {0: 1, 1: 12, 2: 11, 3: 2}, {0: 11, 1: 2, 2: 1, 3: 12}])
     prog = []
     nc = 0
     bad = 0
     for cmd in base:
         cmd = json.loads(json.dumps(cmd))
+        if qmap is not None and cmd[0] == 'op':
+            cmd[3] = [qmap.get(q, q) for q in cmd[3]]
         if cmd[0] in ('new', 'copy'):
             nc += 1
         if cmd[0] == 'op' and cmd[2] in ANNOT:
